@@ -122,7 +122,12 @@ pub fn run(c: &mut Ctx) {
     // additions are the steps that can wrap there); 2^61 - 1 is the largest array type rustc accepts on this target
     for bp in 2..=61u32 {
         for base in [usize::MAX >> bp, (isize::MAX as usize) >> bp] {
-            sizes.extend_from_slice(&[base - 1, base, base + 1]);
+            // every size in the neighbourhood: which of them tips a bound depends on its residue modulo the control
+            // alignment and on the few dozen bytes of control bytes and padding that are added to the product
+            let span = if bp <= 8 { 72 } else { 3 };
+            for d in 0..=span {
+                sizes.push(base + 2 - d.min(base));
+            }
         }
     }
     sizes.sort();
